@@ -27,7 +27,7 @@ BUDGET = {
 }
 REQUIRED_PROBES = ["mixin_call_with_caller_metadata", "mixin_fault_surfaced", "operations_mixin", "iam_mixin", "locations_mixin", "api_not_listed", "rule_subset", "iam_yields_to_own_rpc",
                    "own_iam_rpc_unruled_keeps_mixins", "add_iam_methods", "grpc_call", "async_call", "rest_call",
-                   "rest_additional_binding", "exposure_checked", "nothing_exposed", "own_rpc_with_mixin_name", "second_service_client"]
+                   "rest_additional_binding", "exposure_checked", "nothing_exposed", "own_rpc_with_mixin_name", "second_service_client", "request_omitted"]
 
 MIXINS = {
     "google.longrunning.Operations": {
@@ -162,8 +162,13 @@ def gen_op(rng, name, api, rule, oid, client, spec, svc=None):
     rdesc = descriptor_pool.Default().FindMessageTypeByName(resp_full)
     reply = values.rand_valuation(rng, rdesc, 0, 2, 0.5)
     c04.prune_empty(reply)
+    form = rng.choice(["msg", "dict"])
+    if client in ("sync", "async") and rng.random() < 0.07:
+        # the request argument is declared Optional[...] = None: omitted = the empty request (over REST an empty name
+        # instantiates no binding, so only the gRPC flavours make this call)
+        form, val = "omitted", {key: ""}
     return {"id": oid, "kind": "mixin", "service": svc or _first_service(spec), "method": name, "api": api,
-            "form": rng.choice(["msg", "dict"]), "request": val, "reply": reply, "req_full": req_full, "resp_full": resp_full,
+            "form": form, "request": val, "reply": reply, "req_full": req_full, "resp_full": resp_full,
             "binding": b}
 
 
@@ -179,6 +184,10 @@ def _request_obj(op):
     desc = descriptor_pool.Default().FindMessageTypeByName(op["req_full"])
     nat = values.to_native(desc, op["request"])
     return _cls(op["req_full"])(**nat) if op["form"] == "msg" else nat
+
+
+def _req_kw(op):
+    return {} if op["form"] == "omitted" else {"request": _request_obj(op)}
 
 
 def _introspect(run, client, op):
@@ -206,7 +215,7 @@ def _sync_mixin(run, client, op):
         run.sim.ev("raise", op=op["id"], cls="MissingMethod", mod="dsim", msg=f"client has no {snake(op['method'])}")
         return
     try:
-        resp = fn(request=_request_obj(op), **_call_kwargs(run, op))
+        resp = fn(**_req_kw(op), **_call_kwargs(run, op))
     except Exception as e:  # noqa
         run.sim.ev("raise", op=op["id"], **engine.exc_info(e))
         return
@@ -220,7 +229,7 @@ async def _async_mixin(run, client, op):
         run.sim.ev("raise", op=op["id"], cls="MissingMethod", mod="dsim", msg=f"client has no {snake(op['method'])}")
         return
     try:
-        resp = await fn(request=_request_obj(op), **_call_kwargs(run, op))
+        resp = await fn(**_req_kw(op), **_call_kwargs(run, op))
     except Exception as e:  # noqa
         run.sim.ev("raise", op=op["id"], **engine.exc_info(e))
         return
@@ -404,6 +413,8 @@ def judge(spec, scenario, history):
                 return V("rest_binding_order", f"request matches binding #{first} of the YAML rule but the call used binding #{hit[0]} ({a['verb']} {a['url']})")
         else:
             _bump(probes, "async_call" if scenario["client"] == "async" else "grpc_call")
+            if op["form"] == "omitted":
+                _bump(probes, "request_omitted")
             want_path = f"/{op['api']}/{op['method']}"
             if a["path"] != want_path:
                 return V("grpc_path", f"call went to {a['path']}; canonical path is {want_path}")
